@@ -263,9 +263,26 @@ pub(crate) mod verif_sem {
         bits
     }
 
+    /// C06 "woken through the waker of its latest poll", for wakers that differ only in their vtable.
+    pub fn waker_identity<M: RawMutex, S: Src>(s: &mut S, p: u32) -> u32 {
+        let fair = s.flag();
+        let sem = GenericSemaphore::<M>::new(fair, 0);
+        let c = DualCell::new();
+        let mut f = ManuallyDrop::new(sem.acquire(1));
+        let both_pending = dual_repoll(unsafe { Pin::new_unchecked(&mut *f) }, &c);
+        oracle!(p, P05, both_pending, "C05 semaphore: acquire(1) completed although no permit is available");
+        sem.release(1);
+        if both_pending {
+            oracle!(p, P06, c.b.get() >= 1, "C06 semaphore: the head request fits but was not woken through the waker of its latest poll (same data pointer, other vtable)");
+        }
+        s.reached(c.b.get());
+        c.b.get()
+    }
+
     #[no_mangle]
     pub fn fi_verif_replay_sem(name: &str, cfg: u32, p: u32, s: &mut ScriptSrc<'_>) -> bool {
         match name {
+            "sem_waker_identity" => { waker_identity::<NoopLock, _>(s, p); }
             "sem_hist_noop" => { hist::<NoopLock, _>(s, cfg, 64, p); }
             "sem_hist_check" => { hist::<CheckLock, _>(s, cfg, 64, p); }
             _ => return false,
@@ -612,6 +629,9 @@ pub(crate) mod verif_sem {
     #[cfg(kani)]
     mod proofs {
         use super::*;
+        #[kani::proof]
+        #[kani::unwind(3)]
+        fn waker_identity_c06() { let b = waker_identity::<NoopLock, _>(&mut KaniSrc, P06); kani::cover!(b >= 1, "W semaphore: woken through the latest waker"); }
         #[kani::proof]
         #[kani::unwind(3)]
         fn repoll_panics() {
